@@ -14,12 +14,13 @@ type Case struct {
 	Templates    map[string]string
 	Main         string
 	Ctx          map[string]any
-	Policy       *PolicySpec // nil = no security policy on the engine
-	SpyFilters   []string    // user filters: identity, recorded
-	SpyFunctions []string    // user functions: return their own name, recorded
-	SpyTests     []string    // user tests: true, recorded
-	FailAt       int         // index of the spy invocation that fails (-1 = none)
-	Facts        string      // "" / "fixed" / "pinned": which sandbox facts the MODEL uses (regression instances)
+	Policy       *PolicySpec    // nil = no security policy on the engine
+	SpyFilters   []string       // user filters: identity, recorded
+	SpyFunctions []string       // user functions: return their own name, recorded
+	SpyTests     []string       // user tests: true, recorded
+	FailAt       int            // index of the spy invocation that fails (-1 = none)
+	Facts        string         // "" / "fixed" / "pinned": which sandbox facts the MODEL uses (regression instances)
+	Globals      map[string]any // engine globals (AddGlobal); the model has none: used by the shadowing oracle only
 }
 
 type PolicySpec struct {
@@ -111,6 +112,9 @@ func runImpl(c *Case) Outcome {
 				}
 				return true, nil
 			})
+		}
+		for _, g := range sortedKeys(c.Globals) {
+			e.AddGlobal(g, c.Globals[g])
 		}
 		for _, n := range sortedKeys(c.Templates) {
 			if err := e.RegisterString(n, c.Templates[n]); err != nil {
@@ -292,7 +296,39 @@ func compareCase(e *Env, c *Case, key, broken string) (im Outcome, mo Outcome, o
 		e.Rep.Violate(Violation{Key: key, What: "model and implementation disagree: " + why, Broken: broken, Replay: c.replay(im, mo)})
 		return im, mo, false, nil
 	}
+	shadowOracle(e, c, im)
 	return im, mo, true, nil
+}
+
+// shadowOracle: engine globals named like the keys of the render context change nothing — wherever a template of
+// the case reads such a name (a loop body, an included or extended template, a macro) the context value is found
+// first. Run for every fourth case.
+var shadowTick int
+
+func shadowOracle(e *Env, c *Case, im Outcome) {
+	shadowTick++
+	if shadowTick%4 != 0 || len(c.Ctx) == 0 || c.Globals != nil {
+		return
+	}
+	for _, t := range c.Templates {
+		if strings.Contains(t, "only") {
+			return // `only` hides the context from the included template; globals stay visible there, as in Twig
+		}
+	}
+	c2 := *c
+	c2.Globals = map[string]any{}
+	for k := range c.Ctx {
+		c2.Globals[k] = "GLOBAL-" + k
+	}
+	im2 := runImpl(&c2)
+	e.Rep.Hit("globals-shadowed-by-context")
+	if im2.Class != im.Class || im2.Out != im.Out || !sameEvs(im2.Spies, im.Spies) {
+		rp := c.replay(im, im2)
+		rp["globals"] = c2.Globals
+		e.Rep.Violate(Violation{Key: "global-shadows-context-variable", What: fmt.Sprintf("registering engine globals named like the context keys changes the result: %q (%s) without, %q (%s) with", truncate(im.Out, 160), im.Class, truncate(im2.Out, 160), im2.Class),
+			Broken: "theorem C11_visibility / C09_set_visible / C10 block context: variables are found in the context chain (implementation-only oracle: engine globals are not modelled; a context value shadows a global)",
+			Replay: rp})
+	}
 }
 
 // The results of the last renders are kept (the very strings the engine returned) next to private copies taken
